@@ -525,6 +525,9 @@ FUNS_SIG = {"fn1": ([INT, STR], INT), "fn2": ([INT], RES_S), "fn3": ([INT], RES_
             "fn5": ([("opt", INT)], INT)}
 
 
+RANDOM_FUNS = ["fn9", "fn10", "fn11"]
+
+
 class Gen:
     def __init__(self, rng, b):
         self.rng = rng
@@ -533,7 +536,17 @@ class Gen:
         self.sites = []      # (edit kind, node id, context path, extra)
         self.ret = UNIT
 
-    def fresh(self):
+    POOL = ["v%d" % i for i in range(1, 9)]
+
+    def fresh(self, env=None, shadow_ok=False):
+        """a variable name: drawn from a SMALL pool shared by all functions and blocks, so that the same name
+        is mutable here and immutable there, int here and str there, parameter / local / loop variable / pattern
+        binder in turn.  shadow_ok (let / mut only): a name bound in an ENCLOSING scope may be shadowed."""
+        if env is not None:
+            vis = self.visible(env)
+            cands = [n for n in self.POOL if n not in env[-1] and (n not in vis or (shadow_ok and self.rng.random() < 0.5))]
+            if cands:
+                return self.rng.choice(cands)
         self.vn += 1
         return "v%d" % self.vn
 
@@ -659,8 +672,8 @@ class Gen:
         c = r.random()
         if c < 0.30 or depth <= 0 and c < 0.5:
             t = self.rand_ty()
-            x = self.fresh()
             k = r.choice(["plain", "let", "mut", "mut"])
+            x = self.fresh(env, shadow_ok=(k != "plain"))
             annotated = r.random() < 0.4
             e = self.expr(env, t, 2, ng=annotated)
             env[-1][x] = [t, k == "mut", False]
@@ -697,7 +710,7 @@ class Gen:
         if c < 0.86:
             return S(b, "while", c=self.expr(env, BOOL, 2), b=self.block(env, depth - 1, ctx + ["while"]))
         if c < 0.91:
-            x = self.fresh()
+            x = self.fresh(env)
             return S(b, "for", x=x, e=self.expr(env, INT, 1), b=self.block(env, depth - 1, ctx + ["for"], {x: [INT, False, False]}))
         return self.match(env, depth, ctx)
 
@@ -741,7 +754,7 @@ class Gen:
             r.shuffle(specs)
             for p in specs:
                 if p[0] == "some":
-                    x = self.fresh()
+                    x = self.fresh(env)
                     bind = r.random() < 0.7
                     arm(("some", x if bind else None), {x: [INT, False, False]} if bind else None)
                 else:
@@ -753,7 +766,7 @@ class Gen:
             if r.random() < 0.5:
                 r.shuffle(specs)
             for p in specs:
-                x = self.fresh()
+                x = self.fresh(env)
                 bind = r.random() < 0.7
                 arm((p[0], x if bind else None), {x: [INT if p[0] == "ok" else STR, False, False]} if bind else None)
             if wild:
@@ -771,13 +784,20 @@ class Gen:
         funs.append({"name": "fn4", "params": [("v1", ("named", "E1"))], "ret": BOOL,
                      "body": [S(b, "return", e=E(b, "bin", o=("cmp", "=="), a=v("v1"), b=E(b, "variant", en="E1", v="K1")))]})
         funs.append({"name": "fn5", "params": [("v1", ("opt", INT))], "ret": INT, "body": [S(b, "return", e=E(b, "lit", l=("int", 0)))]})
-        self.ret = r.choice([UNIT, UNIT, INT, RES_S, RES_S, BOOL])
-        params = [("v1", INT), ("v2", STR), ("v3", ("named", "E1")), ("v4", ("named", "M1")), ("v5", ("opt", INT))]
-        r.shuffle(params)
-        params = params[:r.randint(2, 5)]
-        env = [{n: [t, False, False] for n, t in params}]
-        body = self.stmts(env, 3, r.randint(3, 6), ["fn"])
-        funs.append({"name": "fn9", "params": params, "ret": self.ret, "body": body})
+        # several generated functions over the same name pool; different return types (Result / not) in sequence
+        rets = [r.choice([UNIT, INT, RES_S, RES_S, BOOL]), r.choice([UNIT, INT, RES_I, BOOL]), r.choice([RES_S, UNIT, INT])]
+        r.shuffle(rets)
+        for k, name in enumerate(RANDOM_FUNS):
+            self.ret = rets[k]
+            ptys = [INT, INT, STR, ("named", "E1"), ("named", "M1"), ("opt", INT), BOOL]
+            r.shuffle(ptys)
+            pnames = list(self.POOL)
+            r.shuffle(pnames)
+            params = list(zip(pnames, ptys))[:r.randint(1, 4)]
+            env = [{n: [t, False, False] for n, t in params}]
+            body = self.stmts(env, 3 if k == 0 else 2, r.randint(3, 5) if k == 0 else r.randint(2, 4), ["fn"])
+            funs.append({"name": name, "params": params, "ret": self.ret, "body": body})
+        r.shuffle(funs)
         return {"enums": ENUMS, "models": MODELS, "funs": funs}
 
 
@@ -916,7 +936,7 @@ def ctx_key(ctx):
 def make_edits(p, rng, per_kind, quota):
     """list of (edit name, context path, edited program, construct id).  Each edit deep-copies the
     program, then mutates exactly one node / inserts exactly one statement."""
-    sites = walk(p)
+    sites = [x for fn in RANDOM_FUNS for x in walk(p, fn)]
     next_id = 1 + max_id(p)
     edits = []
 
@@ -1190,6 +1210,55 @@ def trait_cases():
 
 
 # ----------------------------------------------------------------------------------------------
+# checker STATE families (real checker only; constructs outside the Coq fragment).  One family per piece of
+# state the TypeChecker carries across declarations / scopes: the verdict on the marked line must not depend
+# on what was checked before it.  (name, source, marker line or None = must be accepted, known finding id or None)
+
+STATE_PRE = """const K: int = 3
+
+model M1:
+    a1: int
+
+@requires(a1: int)
+trait T1:
+    def m1(self) -> int: ...
+
+    def m2(self) -> int:
+        return self.a1
+
+"""
+
+
+def state_cases():
+    P = STATE_PRE
+    return [
+        # mutable_bindings (name-keyed set) / symbol scopes: `n` is mut in f, immutable in g
+        ("state-mutname-ok", P + "def f() -> int:\n    mut n = 1\n    n += 1\n    return n\n\ndef g() -> int:\n    mut n = 2\n    n -= 1\n    return n\n", None, None),
+        ("state-mutname-param", P + "def f() -> int:\n    mut n = 1\n    n += 1\n    return n\n\ndef g(n: int) -> int:\n    n += 1\n    return n\n", "    n += 1\n    return n\n", None),
+        ("state-mutname-forvar", P + "def f() -> int:\n    mut n = 1\n    return n\n\ndef g() -> None:\n    for n in range(3):\n        n *= 2\n", "        n *= 2", None),
+        ("state-mutname-sibling-block", P + "def g(c: bool) -> None:\n    if c:\n        mut n = 1\n        n += 1\n    else:\n        let n = 2\n        n += 1\n", "        let n = 2\n        n += 1", None),
+        ("state-mutname-method-self", P + "class C1:\n    a1: int\n\n    def bump(mut self) -> None:\n        self.a1 += 1\n\ndef g(n: int) -> None:\n    mut m = n\n    m += 1\n    n //= 2\n", "    n //= 2", None),
+        # current_return_error_type / return type of the enclosing function
+        ("state-errtype-after-result-fn", P + "def a() -> Result[int, str]:\n    return Ok(1)\n\ndef b() -> Result[int, int]:\n    x = a()?\n    return Ok(x)\n", "    x = a()?", None),
+        ("state-return-after-result-fn", P + "def a() -> Result[int, str]:\n    return Ok(1)\n\ndef b() -> int:\n    return Ok(1)\n", "def b() -> int:\n    return Ok(1)", None),
+        ("state-try-after-result-fn", P + "def a() -> Result[int, str]:\n    return Ok(1)\n\ndef b() -> int:\n    x = a()?\n    return x\n", "    x = a()?", "try-in-nonresult-fn"),
+        # current_trait_requires / current_trait_name: a function after a trait with default methods
+        ("state-field-after-trait", P + "def g(p: M1) -> int:\n    return p.zz\n", "    return p.zz", None),
+        ("state-adoption-before-trait-decl", "model M9 with T9:\n    a1: int\n\ntrait T9:\n    def m1(self) -> int: ...\n\ndef main() -> None:\n    println(1)\n", "model M9 with T9:", None),
+        # const table / module scope
+        ("state-const-compound", P + "def g() -> None:\n    K += 1\n", "    K += 1", None),
+        ("state-const-reassign", P + "def g() -> None:\n    K = 4\n", "    K = 4", "nested-reassign"),
+        # shadowing across scopes: the inner binding must not leak / the outer one must be back afterwards
+        ("state-shadow-restored", P + "def g() -> int:\n    let n = 1\n    if true:\n        mut n = 2\n        n += 1\n    n += 1\n    return n\n", "    n += 1\n    return n", None),
+        ("state-shadow-type-restored", P + "def g() -> int:\n    let n = 1\n    if true:\n        let n = \"s\"\n        println(n)\n    return n + \"t\"\n", "    return n + \"t\"", None),
+        # mutation through an immutable binding: field / index assignment
+        ("state-field-assign-immutable", P + "def g() -> None:\n    p = M1(a1=1)\n    p.a1 = 2\n", "    p.a1 = 2", "mutate-through-immutable"),
+        ("state-index-assign-immutable", P + "def g() -> None:\n    xs = [1, 2]\n    xs[0] = 5\n", "    xs[0] = 5", "mutate-through-immutable"),
+        ("state-field-assign-mut-ok", P + "def g() -> None:\n    mut p = M1(a1=1)\n    p.a1 = 2\n", None, None),
+    ]
+
+
+# ----------------------------------------------------------------------------------------------
 # fixed corpus: the refutation witnesses of Props.v rendered as Incan, and extra observations
 
 def corpus_programs():
@@ -1248,6 +1317,12 @@ def construct_ids(q, cid):
 
 
 def load_findings(chk):
+    # TEMPORARY until the lead has merged build/kf-C03.json into known_findings.json: entries proposed there
+    # whose id is not yet listed are used as well (drop this block after merging)
+    p = os.path.join(vlib.VERIF, "build", "kf-C03.json")
+    if os.path.exists(p):
+        have = set(f["id"] for f in chk.findings)
+        chk.findings = list(chk.findings) + [f for f in json.load(open(p)) if f["id"] not in have]
     return {f["id"]: f for f in chk.findings if f.get("status") == "known"}
 
 
@@ -1275,7 +1350,7 @@ def run(chk):
         res["broken"].append({"what": "model", "message": "C03/Model.v does not build"})
 
     rng = chk.rng
-    n_prog = 24 if chk.tier == "quick" else 200
+    n_prog = 18 if chk.tier == "quick" else 150
     per_key = 2 if chk.tier == "quick" else 12
     quota = {}
     cases = []      # dict(name, kind, ctx, prog, cid, dep)
@@ -1458,6 +1533,30 @@ def run(chk):
         decl = [d for d in r["tree"] if d["k"] == "model"][0]
         if not any(inside((e[0], e[1]), (decl["s"], decl["e"])) for e in r["errors"]):
             fails.append({"case": name, "edit": name, "why": "trait adoption violation accepted / not located in the adopting model", "errors": r["errors"], "source": src})
+
+    # ---- checker-state families (real checker only)
+    scs = state_cases()
+    sreal = run_real(binary, [{"main": src, "deps": []} for _, src, _, _ in scs])
+    for (name, src, marker, kid), r in zip(scs, sreal):
+        chk.count_case(("state", name), nontrivial=marker is not None)
+        dist["%s @ decl" % name] = 1
+        if r["parse"] != "ok":
+            corr_bad.append({"case": name, "why": "state case does not parse: %s" % (r.get("errors") or r.get("message")), "source": src})
+            continue
+        if marker is None:
+            if r["errors"]:
+                fails.append({"case": name, "edit": "unedited", "why": "well-typed program rejected", "errors": r["errors"], "source": src})
+            continue
+        lo = src.rfind(marker)      # the LAST occurrence: the later declaration
+        hi = lo + len(marker)
+        if any(lo <= e[0] and e[1] <= hi + 1 for e in r["errors"]):
+            continue
+        if kid is not None:
+            classes[kid] = classes.get(kid, 0) + 1
+            if kid in known:
+                continue
+        fails.append({"case": name, "edit": name, "construct": src[lo:hi], "why": "ill-typed program accepted / no diagnostic inside the marked construct (checker state family)",
+                      "class": ("falls in class %s, not listed as known" % kid) if kid else "NONE", "impl_errors": r["errors"], "source": src})
 
     # ---- known findings: replay each witness on the real code
     for fid, f in sorted(known.items()):
